@@ -135,6 +135,45 @@ def check_model(ctx, out, rule="C07.model"):
     return n == total
 
 
+def check_bad_pattern(ctx, out, rule="C07.badpattern"):
+    """An uncompilable `keep-unique` pattern on a block with content fails the run: for 1, 2 and 3 non-blank
+    content lines, with `Regex::new` answering Err, one iteration of the per-block loop ends in an error
+    return on every path - the next block is never reached and nothing is reported instead. (Small model;
+    None if the walk cannot follow the code.)"""
+    from rules import linemodel as LMo
+    from engine import casewalk as CW
+    vb = ctx.validate_body(NAME, inline=True, sugar=True)
+    if vb is None:
+        return None
+    n = 0
+    for k in (1, 2, 3):
+        lines = [CW.sym("L%d" % i) for i in range(k)]
+
+        def extra(w, bb, t, argv, env, rep):
+            nm = callee_name(t)
+            a0 = w.deref_val(env, argv[0]) if argv else CW.TOP
+            if re.search(r"regex::Regex::new$", nm):
+                return CW.adt("std::result::Result", "Err", 1, [("0", CW.sym("REGEX-ERROR"))])
+            if re.search(r"<impl str>::trim$", nm) and a0[0] == "sym":
+                return CW.sym("trim", a0)
+            if re.search(r"<impl str>::is_empty$", nm) and a0[0] == "sym":
+                return CW.const(0)          # every line has content
+            if re.search(r"anyhow::Context.*::(context|with_context)$|anyhow::context::<impl anyhow::Context|Result::<T, E>::map_err$", nm):
+                return a0 if a0[0] == "adt" and a0[2] in ("Ok", "Err") else None
+            return None
+        rep = LMo.walk_block(ctx, vb, NAME, lines, extra, attr_value=CW.const("(unclosed"))
+        if rep is None:
+            return None
+        if rep.accepted or rep.reported or rep.ok_returns or not rep.errors:
+            what = "the block is passed over and the next block is examined" if rep.accepted else ("a violation is built" if rep.reported else ("the validator returns without an error" if rep.ok_returns else "no error return is reached"))
+            out.viol(rule, "%s|%d-lines" % (rule, k), ctx.where(vb),
+                     "an uncompilable keep-unique pattern on a block with %d non-blank content line(s): %s; expected: the run fails with an error on every path" % (k, what))
+        else:
+            n += 1
+    out.inst(rule, n, 3, ["Regex::new -> Err with 1 / 2 / 3 content lines: error return on every path"], exhaustive=True)
+    return n == 3
+
+
 def LMo_show(v):
     if v[0] == "sym":
         return "%s(%s)" % (v[1], ", ".join(LMo_show(x) if isinstance(x, tuple) else str(x) for x in v[2:])) if len(v) > 2 else str(v[1])
@@ -159,6 +198,16 @@ def run(ctx, out, tier):
     except Exception as e:      # noqa: BLE001
         ctx.view_fallbacks.append("C07.model: small-model analysis failed (%s: %s)" % (type(e).__name__, e))
         decided = None
+    # an uncompilable pattern fails the run for every block with content (small model; undecided = no verdict
+    # from this rule, C13.sites' propagation rule still applies)
+    tr2 = out.trial()
+    try:
+        bp = check_bad_pattern(ctx, tr2)
+    except Exception as e:      # noqa: BLE001
+        ctx.view_fallbacks.append("C07.badpattern: small-model analysis failed (%s: %s)" % (type(e).__name__, e))
+        bp = None
+    if bp is not None:
+        out.adopt(tr2)
     if decided is not None:
         out.adopt(tr)
     else:
